@@ -1,5 +1,10 @@
 """C12: what the reflection record of each schema node must contain (written from the statement: every declared value)."""
 from spec.prelude import *
+try:  # native use only (PyVC reads this file with `ast` and ignores imports)
+    from fcp.specs.type import (Type, NumericType, UnsignedType, SignedType, FloatType, DoubleType, StringType, EnumType,
+                                StructType, ArrayType, DynamicArrayType, OptionalType)
+except Exception:  # pragma: no cover
+    pass
 
 
 @pure
@@ -20,3 +25,124 @@ def type_chain(t: "ref:Type") -> "seq[dyn]":
     if isinstance(t, ArrayType):
         return [rec3(to_dyn(t.type), to_dyn(t.type), d_mk_int(t.size))] + type_chain(t.underlying_type)
     return [rec3(to_dyn(t.type), to_dyn(t.type), d_mk_int(1))] + type_chain(t.underlying_type)
+
+
+# ---------------------------------------------------------------- record predicates: "d is the reflection record of node x"
+# Written from the statement: every declared value appears, under the key the reflection schema names, and nothing else
+# does (only_keys).  Lists are pointwise: same length, k-th record describes the k-th declared node.
+@pure
+def meta_ok(d: "dyn", m: "opt[ref:MetaData]") -> "bool":
+    return ite(is_none(m), d_is_none(d), is_meta(d, m))
+
+
+@pure
+def is_meta(d: "dyn", m: "ref:MetaData") -> "bool":
+    return (dyn_get(d, "line") == d_mk_int(m.line) and dyn_get(d, "end_line") == d_mk_int(m.end_line)
+            and dyn_get(d, "column") == d_mk_int(m.column) and dyn_get(d, "end_column") == d_mk_int(m.end_column)
+            and dyn_get(d, "start_pos") == d_mk_int(m.start_pos) and dyn_get(d, "end_pos") == d_mk_int(m.end_pos)
+            and dyn_get(d, "filename") == to_dyn(m.filename))
+
+
+def is_field_rec(d: "dyn", f: "ref:StructField") -> "bool":
+    return (d_is_dict(d) and dyn_get(d, "name") == to_dyn(f.name) and dyn_get(d, "field_id") == d_mk_int(f.field_id)
+            and dyn_get(d, "type") == d_mk_list(type_chain(f.type))
+            and dyn_get(d, "unit") == to_dyn(f.unit)
+            and dyn_get(d, "min_value") == to_dyn(f.min_value) and dyn_get(d, "max_value") == to_dyn(f.max_value)
+            and meta_ok(dyn_get(d, "meta"), f.meta)
+            and forall("str", lambda k: implies(k != "name" and k != "field_id" and k != "type" and k != "unit"
+                                                and k != "min_value" and k != "max_value" and k != "meta",
+                                                dyn_get(d, k) == d_absent())))
+
+
+def is_struct_rec(d: "dyn", s: "ref:Struct") -> "bool":
+    return (d_is_dict(d) and dyn_get(d, "name") == to_dyn(s.name) and d_is_list(dyn_get(d, "fields"))
+            and len(d_list(dyn_get(d, "fields"))) == len(s.fields)
+            and forall(0, len(s.fields), lambda k: is_field_rec(d_list(dyn_get(d, "fields"))[k], s.fields[k]))
+            and meta_ok(dyn_get(d, "meta"), s.meta)
+            and forall("str", lambda k: implies(k != "name" and k != "fields" and k != "meta", dyn_get(d, k) == d_absent())))
+
+
+def is_enumeration_rec(d: "dyn", e: "ref:Enumeration") -> "bool":
+    return (d_is_dict(d) and dyn_get(d, "name") == to_dyn(e.name) and dyn_get(d, "value") == d_mk_int(e.value)
+            and meta_ok(dyn_get(d, "meta"), e.meta)
+            and forall("str", lambda k: implies(k != "name" and k != "value" and k != "meta", dyn_get(d, k) == d_absent())))
+
+
+def is_enum_rec(d: "dyn", e: "ref:Enum") -> "bool":
+    return (d_is_dict(d) and dyn_get(d, "name") == to_dyn(e.name) and d_is_list(dyn_get(d, "enumeration"))
+            and len(d_list(dyn_get(d, "enumeration"))) == len(e.enumeration)
+            and forall(0, len(e.enumeration), lambda k: is_enumeration_rec(d_list(dyn_get(d, "enumeration"))[k], e.enumeration[k]))
+            and meta_ok(dyn_get(d, "meta"), e.meta)
+            and forall("str", lambda k: implies(k != "name" and k != "enumeration" and k != "meta", dyn_get(d, k) == d_absent())))
+
+
+@pure
+def is_kv_list(d: "dyn", items: "seq[tuple[str,dyn]]") -> "bool":
+    """an open options dict is listed as {name, value} pairs in declaration order, the value as its str()"""
+    return (d_is_list(d) and len(d_list(d)) == len(items)
+            and forall(0, len(items), lambda k: dyn_get(d_list(d)[k], "name") == to_dyn(items[k][0])
+                       and dyn_get(d_list(d)[k], "value") == to_dyn(py_str(items[k][1]))
+                       and forall("str", lambda q: implies(q != "name" and q != "value", dyn_get(d_list(d)[k], q) == d_absent()))))
+
+
+def is_signal_block_rec(d: "dyn", b: "ref:SignalBlock") -> "bool":
+    return (d_is_dict(d) and dyn_get(d, "name") == to_dyn(b.name) and is_kv_list(dyn_get(d, "fields"), list(b.fields.items()))
+            and meta_ok(dyn_get(d, "meta"), b.meta)
+            and forall("str", lambda k: implies(k != "name" and k != "fields" and k != "meta", dyn_get(d, k) == d_absent())))
+
+
+def is_impl_rec(d: "dyn", i: "ref:Impl") -> "bool":
+    return (d_is_dict(d) and dyn_get(d, "name") == to_dyn(i.name) and dyn_get(d, "protocol") == to_dyn(i.protocol)
+            and dyn_get(d, "type") == to_dyn(i.type) and is_kv_list(dyn_get(d, "fields"), list(i.fields.items()))
+            and d_is_list(dyn_get(d, "signals")) and len(d_list(dyn_get(d, "signals"))) == len(i.signals)
+            and forall(0, len(i.signals), lambda k: is_signal_block_rec(d_list(dyn_get(d, "signals"))[k], i.signals[k]))
+            and meta_ok(dyn_get(d, "meta"), i.meta)
+            and forall("str", lambda k: implies(k != "name" and k != "protocol" and k != "type" and k != "fields"
+                                                and k != "signals" and k != "meta", dyn_get(d, k) == d_absent())))
+
+
+def is_method_rec(d: "dyn", m: "ref:Method") -> "bool":
+    return (d_is_dict(d) and dyn_get(d, "name") == to_dyn(m.name) and dyn_get(d, "id") == d_mk_int(m.id)
+            and dyn_get(d, "input") == to_dyn(m.input) and dyn_get(d, "output") == to_dyn(m.output)
+            and meta_ok(dyn_get(d, "meta"), m.meta)
+            and forall("str", lambda k: implies(k != "name" and k != "id" and k != "input" and k != "output" and k != "meta",
+                                                dyn_get(d, k) == d_absent())))
+
+
+def is_service_rec(d: "dyn", s: "ref:Service") -> "bool":
+    return (d_is_dict(d) and dyn_get(d, "name") == to_dyn(s.name) and dyn_get(d, "id") == d_mk_int(s.id)
+            and d_is_list(dyn_get(d, "methods")) and len(d_list(dyn_get(d, "methods"))) == len(s.methods)
+            and forall(0, len(s.methods), lambda k: is_method_rec(d_list(dyn_get(d, "methods"))[k], s.methods[k]))
+            and meta_ok(dyn_get(d, "meta"), s.meta)
+            and forall("str", lambda k: implies(k != "name" and k != "id" and k != "methods" and k != "meta",
+                                                dyn_get(d, k) == d_absent())))
+
+
+@pure
+def is_fcp_rec(d: "dyn", f: "ref:FcpV2") -> "bool":
+    """the statement of C12, second sentence: every struct, enum, binding and service, in declaration order"""
+    return (d_is_dict(d)
+            and dyn_get(d, "tag") == d_mk_list([d_mk_int(102), d_mk_int(99), d_mk_int(112)])
+            and dyn_get(d, "version") == d_mk_int(version_code(f.version))
+            and d_is_list(dyn_get(d, "structs")) and len(d_list(dyn_get(d, "structs"))) == len(f.structs)
+            and forall(0, len(f.structs), lambda k: is_struct_rec(d_list(dyn_get(d, "structs"))[k], f.structs[k]))
+            and d_is_list(dyn_get(d, "enums")) and len(d_list(dyn_get(d, "enums"))) == len(f.enums)
+            and forall(0, len(f.enums), lambda k: is_enum_rec(d_list(dyn_get(d, "enums"))[k], f.enums[k]))
+            and d_is_list(dyn_get(d, "impls")) and len(d_list(dyn_get(d, "impls"))) == len(f.impls)
+            and forall(0, len(f.impls), lambda k: is_impl_rec(d_list(dyn_get(d, "impls"))[k], f.impls[k]))
+            and d_is_list(dyn_get(d, "services")) and len(d_list(dyn_get(d, "services"))) == len(f.services)
+            and forall(0, len(f.services), lambda k: is_service_rec(d_list(dyn_get(d, "services"))[k], f.services[k]))
+            and forall("str", lambda k: implies(k != "tag" and k != "version" and k != "structs" and k != "enums"
+                                                and k != "impls" and k != "services", dyn_get(d, k) == d_absent())))
+
+
+@pure
+def version_ok(v: "str") -> "bool":
+    """'major.minor' with two non-negative decimal numerals"""
+    return len(v.split(".")) == 2 and str_to_int(v.split(".")[0]) >= 0 and str_to_int(v.split(".")[1]) >= 0
+
+
+@pure
+def version_code(v: "str") -> "int":
+    """'major.minor' -> major * 1000 + minor"""
+    return str_to_int(v.split(".")[0]) * 1000 + str_to_int(v.split(".")[1])
